@@ -2,7 +2,10 @@
 through (comments of all programming languages, Literate Haskell, ...) - returns tokens that lie inside the
 file, in increasing, non-overlapping order, GIVEN the trait contracts of its two parts: the Masker returns a
 well-formed mask inside the text, the inner Parser returns in-bounds ordered tokens of the chunk it is handed.
-The inner parser contract is the one PROVED for PlainEnglish (unit lexing: tiles => toks_in and ordered)."""
+The inner parser contract is the one PROVED for PlainEnglish (unit lexing: tiles => toks_in and ordered).
+Third postcondition ("each word at its true offset"): for every allowed chunk k the tokens the inner parser returns for
+that chunk appear in the result as one contiguous block, each moved right by exactly the chunk's start (for inner parsers
+whose result is a function of their input, flagged by the specification-only member sp_det)."""
 from vx.extract import Unit
 from . import common
 
@@ -81,6 +84,31 @@ pub proof fn lemma_in_allowed_push_break(a: Seq<Span>, t: Seq<Token>, b: Token)
         if k < t.len() { assert(r[k] == t[k]); assert(in_allowed(a, t[k])); }
     }
 }
+// token t moved `by` characters to the right
+pub open spec fn shift_tok(t: Token, by: int) -> Token { Token { span: Span { start: (t.span.start + by) as usize, end: (t.span.end + by) as usize }, kind: t.kind } }
+pub open spec fn shift_all(t: Seq<Token>, by: int) -> Seq<Token> { Seq::new(t.len(), |i: int| shift_tok(t[i], by)) }
+// the output contains, as one contiguous block, exactly the tokens the inner parser returns for chunk k, each moved
+// to the chunk's place in the file ("each word at its true offset")
+pub open spec fn has_block(out: Seq<Token>, blk: Seq<Token>) -> bool { exists|o: int| 0 <= o && o + blk.len() <= out.len() && #[trigger] out.subrange(o, o + blk.len()) == blk }
+pub proof fn lemma_block_stays(out: Seq<Token>, more: Seq<Token>, blk: Seq<Token>)
+    requires has_block(out, blk),
+    ensures has_block(out + more, blk),
+{
+    let o = choose|o: int| 0 <= o && o + blk.len() <= out.len() && #[trigger] out.subrange(o, o + blk.len()) == blk;
+    assert((out + more).subrange(o, o + blk.len()) =~= out.subrange(o, o + blk.len()));
+}
+pub proof fn lemma_block_new(out: Seq<Token>, blk: Seq<Token>)
+    ensures has_block(out + blk, blk),
+{
+    let o = out.len() as int;
+    assert((out + blk).subrange(o, o + blk.len()) =~= blk);
+}
+pub open spec fn chunk_block<P: Parser>(p: &P, source: Seq<char>, a: Seq<Span>, k: int) -> Seq<Token> {
+    shift_all(p.sp_parse(source.subrange(a[k].start as int, a[k].end as int)), a[k].start as int)
+}
+pub open spec fn blocks_upto<P: Parser>(p: &P, source: Seq<char>, a: Seq<Span>, out: Seq<Token>, n: int) -> bool {
+    forall|k: int| 0 <= k < n ==> has_block(out, #[trigger] chunk_block(p, source, a, k))
+}
 // where the output so far ends: the end of the last allowed span that was handled
 pub open spec fn done_upto(a: Seq<Span>, pos: int) -> int { if pos <= 0 { 0 } else { a[pos - 1].end as int } }
 
@@ -119,18 +147,22 @@ PARSE = dict(
     result='r', props=['C01', 'C02', 'C04'],
     ensures=['toks_ok(r@, source@.len() as int)',
              # every token that is not a structural break lies inside a span the masker allowed
-             'all_in_allowed(self.masker.sp_mask(source@), r@)'],
+             'all_in_allowed(self.masker.sp_mask(source@), r@)',
+             # for every allowed chunk, the inner parser's tokens for that chunk appear as one block, each at chunk start + its offset
+             'self.parser.sp_det() ==> blocks_upto(&self.parser, source@, self.masker.sp_mask(source@), r@, self.masker.sp_mask(source@).len() as int)'],
     loops={
         1: dict(desugar='R5',
                 invariant=[
                     '__it.mask == &mask', '__it.source == source', '__it.pos <= mask.sp_allowed().len()',
                     'mask::spans_ok(mask.sp_allowed(), source@.len() as int)',
                     'toks_ok(tokens@, source@.len() as int)', 'mask.sp_allowed() == self.masker.sp_mask(source@)', 'all_in_allowed(mask.sp_allowed(), tokens@)',
+                    'self.parser.sp_det() ==> blocks_upto(&self.parser, source@, mask.sp_allowed(), tokens@, __it.pos as int)',
                     'toks_before(tokens@, done_upto(mask.sp_allowed(), __it.pos as int))',
                     'last_allowed matches Some(l) ==> __it.pos > 0 && l == mask.sp_allowed()[__it.pos - 1]',
                     'last_allowed is None ==> __it.pos == 0',
                 ],
-                ensures=['toks_ok(tokens@, source@.len() as int)', 'all_in_allowed(self.masker.sp_mask(source@), tokens@)'],
+                ensures=['toks_ok(tokens@, source@.len() as int)', 'all_in_allowed(self.masker.sp_mask(source@), tokens@)', '__it.pos == mask.sp_allowed().len()',
+                         'self.parser.sp_det() ==> blocks_upto(&self.parser, source@, self.masker.sp_mask(source@), tokens@, mask.sp_allowed().len() as int)'],
                 decreases='mask.sp_allowed().len() - __it.pos'),
         2: dict(desugar='R8',
                 invariant=[
@@ -138,15 +170,25 @@ PARSE = dict(
                     'span.start <= span.end <= source@.len()',
                     'toks_ok(nt0, span.end - span.start)',
                     'forall|j: int| __i <= j < new_tokens@.len() ==> new_tokens@[j] == nt0[j]',
-                    'forall|j: int| 0 <= j < __i ==> (#[trigger] new_tokens@[j]).span.start == nt0[j].span.start + span.start && new_tokens@[j].span.end == nt0[j].span.end + span.start',
+                    'forall|j: int| 0 <= j < __i ==> (#[trigger] new_tokens@[j]).span.start == nt0[j].span.start + span.start && new_tokens@[j].span.end == nt0[j].span.end + span.start && new_tokens@[j].kind == nt0[j].kind',
+                    'self.parser.sp_det() ==> nt0 == self.parser.sp_parse(content@)',
                 ],
                 decreases='new_tokens@.len() - __i'),
     },
     proofs=[
+        dict(at='loop_body_start', loop=1, kind='ghost', text='let ghost th = tokens@;'),
         dict(before='let new_tokens', text='''
 
             assert(span == mask.sp_allowed()[__it.pos - 1]);
             assert(content@.len() == span.end - span.start);
+            if self.parser.sp_det() {
+                assert forall|k: int| 0 <= k < __it.pos - 1 implies has_block(tokens@, #[trigger] chunk_block(&self.parser, source@, mask.sp_allowed(), k)) by {
+                    if tokens@.len() != th.len() {
+                        assert(tokens@ =~= th + seq![tokens@[tokens@.len() - 1]]);
+                        lemma_block_stays(th, seq![tokens@[tokens@.len() - 1]], chunk_block(&self.parser, source@, mask.sp_allowed(), k));
+                    } else { assert(tokens@ =~= th); }
+                }
+            }
         '''),
         dict(after='let new_tokens', kind='ghost', text='let ghost nt0 = new_tokens@;'),
         dict(at='loop_body_start', loop=2, text='assert(span_in(nt0[__i - 1].span, span.end - span.start));'),
@@ -159,6 +201,15 @@ PARSE = dict(
             }
             lemma_append_shifted(tokens@, new_tokens@, source@.len() as int, span.start as int, span.end as int);
             lemma_in_allowed_append(mask.sp_allowed(), __it.pos - 1, tokens@, new_tokens@);
+            if self.parser.sp_det() {
+            assert(new_tokens@ =~= shift_all(nt0, span.start as int));
+            assert(content@ == source@.subrange(span.start as int, span.end as int));
+            assert(new_tokens@ == chunk_block(&self.parser, source@, mask.sp_allowed(), __it.pos - 1));
+            assert forall|k: int| 0 <= k < __it.pos implies has_block(tokens@ + new_tokens@, #[trigger] chunk_block(&self.parser, source@, mask.sp_allowed(), k)) by {
+                if k < __it.pos - 1 { lemma_block_stays(tokens@, new_tokens@, chunk_block(&self.parser, source@, mask.sp_allowed(), k)); }
+                else { lemma_block_new(tokens@, new_tokens@); }
+            }
+            }
         '''),
     ],
 )
@@ -179,10 +230,12 @@ def build(repo):
             extra_members='    // the allowed spans this masker computes for a text (specification-only name for the result of create_mask)\n    spec fn sp_mask(&self, source: Seq<char>) -> Seq<Span>;')
     U.raw(MASK_MOD_CLOSE, name='mod-close')
     U.raw(SPEC, name='spec:toks_ok')
-    U.trait('harper-core/src/parsers/mod.rs', 'trait Parser', {'parse': dict(result='r', ensures=['toks_ok(r@, source@.len() as int)'],
+    U.trait('harper-core/src/parsers/mod.rs', 'trait Parser', {'parse': dict(result='r', ensures=['toks_ok(r@, source@.len() as int)', 'self.sp_det() ==> r@ == self.sp_parse(source@)'],
                                                                              note='the front-end contract of C02; proved for PlainEnglish in unit lexing')},
-            cfg_not='cfg(feature="concurrent")')
+            cfg_not='cfg(feature="concurrent")',
+            extra_members='    // what this parser returns for a text (a parser is a function of its input; specification-only name)\n    spec fn sp_parse(&self, source: Seq<char>) -> Seq<Token>;\n    // whether sp_parse characterises this parser (true for the leaf parsers; the composition below does not define one)\n    spec fn sp_det(&self) -> bool;')
     U.item(PF, 'struct Mask', derive=())
-    U.impl(PF, 'impl<M, P> Parser for Mask<M, P>', {'parse': PARSE})
+    U.impl(PF, 'impl<M, P> Parser for Mask<M, P>', {'parse': PARSE},
+           extra_members='    open spec fn sp_det(&self) -> bool { false }\n    open spec fn sp_parse(&self, source: Seq<char>) -> Seq<Token> { Seq::empty() }')
     U.raw(common.FOOTER)
     return U
